@@ -24,8 +24,10 @@ EXPLANATION = (
     'are NOT decided.')
 EXPLANATION += ' Added after the seeded-change rounds: ' + 'D7: wait loops on segment-table entries re-read the table pointer in every iteration (no snapshot from before the loop); D8: the exception cleanup of internal_loop_construct touches an element through the unchecked subscript only where its segment entry was seen allocated, and a block zero-fill count is 1 or derived from segment_size().'
 EXPLANATION += ' Added in the third session (round-3 seeds and the findings they led to): ' + 'D8 also: the growth path indexes a segment only after excluding the allocation-failure tag for that very value; D9: after a failed call nothing it was responsible for stays pending - the exception cleanup tags the missing segments of the abandoned range, every wait for the long table consults the allocation-failed flag.'
+EXPLANATION += ' Added later in the fourth round: ' + "D5 also: capacity() is the size of the allocated prefix (ascending scan advancing only past entries found above the failure tag); the iterator's cached pointer is stepped only inside one segment (++ tests the new index, -- the old one); a table entry is read only with an index known to be below number_of_segments.  D9 also: every exceptional exit of internal_grow / internal_loop_construct (allocation failures included) is covered by an epilogue that tags the owed segments; a wait for a first-block entry leaves when table[0] holds the failure tag; the waiting path of grow_to_at_least ends in an exception over a tagged segment.  D4/D8 are decided over exit_coverage and the clean-up closure (handlers and the helpers they call)."
 ASSUMPTIONS = ['instantiations: concurrent_vector<int>, <string> (explicit instantiation + member templates used by the driver)']
-ND = ['disjointness/tiling of claimed ranges over all interleavings', 'segment_index_of bijection', 'iterator validity']
+ND = ['disjointness/tiling of claimed ranges over all interleavings', 'segment_index_of bijection beyond the witnesses',
+      'grow_to_at_least waiting for elements that another thread is still constructing (does not hold on the waiting path; no completion state exists to anchor a rule on)']
 
 GROWTH_API = ('push_back', 'emplace_back', 'grow_by', 'grow_to_at_least', 'internal_grow', 'internal_grow_by_delta',
               'internal_grow_to_at_least', 'internal_emplace_back', 'internal_loop_construct', 'create_segment', 'enable_segment',
